@@ -33,6 +33,7 @@ def file_bytes(name):
 
 
 _perm = None  # current permutation function for listdir
+_perm_sel = "/t"
 _patched = False
 
 
@@ -46,7 +47,7 @@ def _patch():
 
     def listdir(self, selector):
         out = orig(self, selector)
-        if _perm is not None and type(self) is VFS_Real and selector.rstrip("/") == "/t":
+        if _perm is not None and type(self) is VFS_Real and selector.rstrip("/") == _perm_sel:
             return _perm(out)
         return out
 
@@ -54,12 +55,12 @@ def _patch():
     _patched = True
 
 
-def reference_visible(names, handler, ignorepatt, hidden=()):
+def reference_visible(names, handler, ignorepatt, hidden=(), sel="/t"):
     vis = []
     for n in names:
         if handler == "umn" and n.startswith("."):
             continue
-        if re.search(ignorepatt, "/t/" + n):
+        if re.search(ignorepatt, sel + "/" + n):
             continue
         if n in hidden:
             continue
@@ -67,8 +68,8 @@ def reference_visible(names, handler, ignorepatt, hidden=()):
     return sorted(vis)
 
 
-def _list(w, proto="gopher"):
-    r = w.serve(*rig.request(proto, "/t"))
+def _list(w, proto="gopher", sel="/t"):
+    r = w.serve(*rig.request(proto, sel))
     if r.internal_error:
         return r, None
     try:
@@ -77,22 +78,30 @@ def _list(w, proto="gopher"):
         return r, None
 
 
-def _check_dir(names, handler, extra_files=None, hidden=(), check_retrieval=True, all_perms=True, max_perms=None):
+BASES = ["t", "forms.ask", ".cache-2019", "deep/nest~/d"]
+
+
+def _check_dir(names, handler, extra_files=None, hidden=(), check_retrieval=True, all_perms=True, max_perms=None, base="t", must_list=(), must_not_list=()):
     """Build /t with `names`, list it under every permutation. -> list of (class, detail)"""
-    global _perm
+    global _perm, _perm_sel
     _patch()
+    _perm_sel = "/" + base
     spec = {}
     for n in names:
         spec[n] = {"inner.txt": b"i\n"} if n in DIRS else file_bytes(n)
     if extra_files:
         spec.update(extra_files)
-    w = rig.World({"t": spec}, handlers=("default" if handler == "umn" else DIRLIST), cachetime=0, tag="c07")
+    tree = spec
+    for comp in reversed(base.split("/")):
+        tree = {comp: tree}
+    sel = "/" + base
+    w = rig.World(tree, handlers=("default" if handler == "umn" else DIRLIST), cachetime=0, tag="c07")
     bad = []
     nperm = 0
     try:
         ignorepatt = w.config.get("handlers.dir.DirHandler", "ignorepatt")
         allnames = sorted(spec)
-        expected = reference_visible(allnames, handler, ignorepatt, hidden)
+        expected = reference_visible(allnames, handler, ignorepatt, hidden, sel)
         perms = itertools.permutations(range(len(allnames)))
         first_out = None
         for pi in perms:
@@ -108,15 +117,22 @@ def _check_dir(names, handler, extra_files=None, hidden=(), check_retrieval=True
                 return [s[i] for i in pi] + own
 
             _perm = perm
-            r, entries = _list(w)
+            r, entries = _list(w, sel=sel)
             _perm = None
             if entries is None:
                 bad.append(("listing-failed", "listing under enumeration order %r: %s %r" % ([allnames[i] for i in pi], r.describe_error(), r.out[:100])))
                 break
             if first_out is None:
                 first_out = r.out
-                local = [e for e in entries if not e["info"] and e["target"][0] == "local" and e["target"][1].startswith(b"/t/")]
-                got = [e["target"][1][3:].decode("utf-8", "surrogateescape") for e in local]
+                pre = sel.encode() + b"/"
+                local = [e for e in entries if not e["info"] and e["target"][0] == "local" and e["target"][1].startswith(pre)]
+                got = [e["target"][1][len(pre):].decode("utf-8", "surrogateescape") for e in local]
+                for n in must_list:
+                    if n not in got:
+                        bad.append(("missing", "entry %r must be listed, listing has %r" % (n, got)))
+                for n in must_not_list:
+                    if n in got:
+                        bad.append(("hidden-entry-listed", "entry %r is hidden by metadata but listed: %r" % (n, got)))
                 if not extra_files:
                     if sorted(got) != expected:
                         bad.append(("visible-set", "directory %r: listed %r, visible entries are %r" % (allnames, sorted(got), expected)))
@@ -134,13 +150,13 @@ def _check_dir(names, handler, extra_files=None, hidden=(), check_retrieval=True
             for n in allnames:
                 if n in expected:
                     continue
-                r = w.serve(*rig.request("gopher", "/t/" + n))
+                r = w.serve(*rig.request("gopher", sel + "/" + n))
                 if n in DIRS:
                     ok = not r.internal_error and not parsers.is_gopher_error(r.out)
                 else:
                     ok = r.out == file_bytes(n)
                 if not ok:
-                    bad.append(("unretrievable", "entry %r is kept out of the listing but /t/%s answers %r" % (n, n, r.out[:100])))
+                    bad.append(("unretrievable", "entry %r is kept out of the listing but %s/%s answers %r" % (n, sel, n, r.out[:100])))
     finally:
         _perm = None
         w.destroy()
@@ -154,7 +170,9 @@ CURATED = [
     ({"f.txt": b"f\n", ".a": b"Name=New A\nType=1\nPath=/a\nHost=h1\nPort=70\n", ".b": b"Name=New A\nType=1\nPath=/b\nHost=h2\nPort=70\n",
       "g.txt": b"g\n", "a.txt": b"a\n", "a.text": b"a2\n"}, "two link files add entries with the same title; two files with the same stripped name"),
     ({"f.txt": b"f\n", ".names": b"Type=X\nPath=./f.txt\n", ".zlinks": b"Path=./f.txt\nName=Renamed\n", "g.txt": b"g\n", "b": {"x": b"x"}, "c.html": b"<title>T</title>"},
-     "one link file hides an entry another renames"),
+     "one link file hides an entry another renames", {"must_not_list": ["f.txt"], "must_list": ["g.txt", "b", "c.html"]}),
+    ({"f.txt": b"f\n", "g.txt": b"g\n", ".names": b"Type=X\nPath=./f.txt\n\nType=X\nPath=./f.txt\n\nType=X\nPath=./gone.txt\n", ".more": b"Type=X\nPath=./f.txt\n", "k.txt": b"k\n"},
+     "the same entry hidden twice in one link file and once more in another", {"must_not_list": ["f.txt"], "must_list": ["g.txt", "k.txt"]}),
     ({"1.txt": b"1", "2.txt": b"2", "3.txt": b"3", ".names": b"Path=./1.txt\nNumb=3\n\nPath=./2.txt\nNumb=3\n\nPath=./3.txt\nNumb=-1\n", ".cap": {"2.txt": b"Name=Capped\n"}, "z": {}},
      "equal Numb values, a .cap override and a negative number"),
 ]
@@ -164,14 +182,16 @@ def _shard(shard, seed, tier):
     part = core.Partial()
     for item in shard:
         if item[0] == "subset":
-            _, handler, names = item
-            bad, nperm = _check_dir(list(names), handler)
-            label = "subset|%s|%s" % (handler, ",".join(names))
-            case = {"kind": "subset", "handler": handler, "names": list(names)}
+            _, handler, names = item[:3]
+            base = item[3] if len(item) > 3 else "t"
+            bad, nperm = _check_dir(list(names), handler, base=base)
+            label = "subset|%s|%s|%s" % (handler, base, ",".join(names))
+            case = {"kind": "subset", "handler": handler, "names": list(names), "base": base}
         else:
             _, handler, i = item
-            files, why = CURATED[i]
-            bad, nperm = _check_dir([], handler, extra_files=files, check_retrieval=False)
+            files, why = CURATED[i][:2]
+            exp = CURATED[i][2] if len(CURATED[i]) > 2 and handler == "umn" else {}
+            bad, nperm = _check_dir([], handler, extra_files=files, check_retrieval=False, **exp)
             label = "curated|%s|%d" % (handler, i)
             case = {"kind": "curated", "handler": handler, "i": i}
         part.evaluations += nperm
@@ -190,9 +210,10 @@ def _shard(shard, seed, tier):
 
 def replay(case):
     if case["kind"] == "subset":
-        bad, _ = _check_dir(case["names"], case["handler"])
+        bad, _ = _check_dir(case["names"], case["handler"], base=case.get("base", "t"))
     else:
-        bad, _ = _check_dir([], case["handler"], extra_files=CURATED[case["i"]][0], check_retrieval=False)
+        exp = CURATED[case["i"]][2] if len(CURATED[case["i"]]) > 2 and case["handler"] == "umn" else {}
+        bad, _ = _check_dir([], case["handler"], extra_files=CURATED[case["i"]][0], check_retrieval=False, **exp)
     return bad[0] if bad else None
 
 
@@ -206,6 +227,13 @@ def run(ck):
                 if n == 4 and not (names[0] in FILES[:12]):
                     continue
                 items.append(("subset", handler, names))
+        # the directory's own name on both sides of the unanchored alternatives of the pattern
+        for base in BASES[1:]:
+            for n in (1, 2):
+                for names in itertools.combinations(pool, n):
+                    if n == 2 and not (names[0] in FILES[:10] or names[1] in DIRS[:4]):
+                        continue
+                    items.append(("subset", handler, names, base))
         for i in range(len(CURATED)):
             items.append(("curated", handler, i))
     if ck.seed:
